@@ -525,9 +525,13 @@ func writeEvidence(all []report, t0 time.Time, baseSeed, start uint64, W int, B 
 		"wall_s":      wall,
 		"violations":  nViol,
 	}
-	os.MkdirAll(filepath.Join(verif, "evidence"), 0o755)
+	evDir := filepath.Join(verif, "evidence")
+	if d := os.Getenv("VERIF_EVIDENCE_DIR"); d != "" {
+		evDir = d // development runs against a scratch tree (VERIF_REPO) must not overwrite the evidence of /repo
+	}
+	os.MkdirAll(evDir, 0o755)
 	b, _ := json.MarshalIndent(ev, "", " ")
-	if err := os.WriteFile(filepath.Join(verif, "evidence", *propID+".json"), b, 0o644); err != nil {
+	if err := os.WriteFile(filepath.Join(evDir, *propID+".json"), b, 0o644); err != nil {
 		die(2, "evidence: %v", err)
 	}
 }
